@@ -831,12 +831,27 @@ void mon_disconnect(const Run& run, const Ix&, Verdicts& v, vu::Result& res) {
 // ------------------------------------------------------------------------------------------------ C10 / C11(b)
 void mon_connect(const Run& run, const Ix&, Verdicts& v, vu::Result& res) {
     const History& h = run.w->h;
-    const ClientCfg& cfg = run.sc->ccfg;
+    uint64_t reconf_seq = UINT64_MAX;
+    for (auto& e : h.ev) if (e.kind == Ev::note && e.s == "script: reconfigure") { reconf_seq = e.seq; break; }
     for (auto& c : h.conns) {
         if (!c.tcp_ok) continue;
         std::vector<const CPacket*> pk;
         for (auto& k : h.cpkts) if (k.conn == c.id) pk.push_back(&k);
         if (pk.empty()) continue;
+        // a malformed handshake is abandoned: when the first thing the broker sent on this connection is a CONNACK-typed packet the
+        // independent decoder rejects for its structure (reserved bits set, bytes left over inside the Remaining Length, ...)
+        // the connection must not become the client's live connection
+        {
+            const BPacket* fb = nullptr;
+            for (auto& b : h.bpkts) if (b.conn == c.id) { fb = &b; break; }
+            if (fb && !fb->wellformed && !fb->raw.empty() && (uint8_t(fb->raw[0]) >> 4) == 2 && fb->delivered_t >= 0) {
+                res.count("malformed_connacks_delivered");
+                if (c.established) v.add("C10", "C10:malformed-connack-accepted", "connection " + std::to_string(c.id) + ": the handshake was completed on a malformed CONNACK: " + vu::hex(fb->raw, 24));
+            }
+        }
+        // the configuration in force: the one given before the run this connection belongs to
+        const ClientCfg& cfg = (run.sc->has_ccfg2 && c.seq_begin > reconf_seq) ? run.sc->ccfg2 : run.sc->ccfg;
+        if (&cfg == &run.sc->ccfg2) res.count("connects_after_reconfiguration");
         res.count("connections_with_traffic");
         // first packet: the configured CONNECT
         const ref::Packet& p = pk[0]->dec.pkt;
